@@ -281,7 +281,7 @@ std::string dumpReset(const ResetPtr &r, const DumpOpts &o)
     return w.out.str();
 }
 
-static std::string itemString(const AnyCellmlElementPtr &item)
+std::string itemString(const AnyCellmlElementPtr &item)
 {
     if (item == nullptr) {
         return "noitem";
